@@ -35,7 +35,60 @@ MAXH = 6
 
 # ----------------------------------------------------------------------------- implementation runner
 
+COV_RANGES = [(329, 406), (46, 83), (670, 672), (710, 753), (868, 871)]    # __init__..__getitem__, dict_concat, apply, do, concat, __add__
+_LINES = set()
+_COV = {'on': False}
+
+
+def start_coverage():
+    """line coverage of _dictable.py through sys.monitoring (each location reports once, then disables itself), so
+    that a constant generator is visible in the evidence"""
+    if _COV['on']:
+        return
+    import sys
+    mon = getattr(sys, 'monitoring', None)
+    if mon is None:
+        return
+    try:
+        mon.use_tool_id(mon.COVERAGE_ID, 'pv-c01')
+    except ValueError:
+        return
+
+    def on_line(code, line):
+        if code.co_filename.endswith('_dictable.py'):
+            _LINES.add(line)
+        return mon.DISABLE
+    mon.register_callback(mon.COVERAGE_ID, mon.events.LINE, on_line)
+    mon.set_events(mon.COVERAGE_ID, mon.events.LINE)
+    _COV['on'] = True
+
+
+def coverage_report(ranges=None):
+    import pyg_base._dictable as m
+    import types
+    execl = set()
+
+    def walk(code):
+        for _, _, ln in code.co_lines():
+            if ln:
+                execl.add(ln)
+        for c in code.co_consts:
+            if isinstance(c, types.CodeType):
+                walk(c)
+    for v in list(vars(m).values()) + list(vars(m.dictable).values()):
+        f = getattr(v, '__func__', v)
+        if isinstance(f, types.FunctionType) and f.__code__.co_filename.endswith('_dictable.py'):
+            walk(f.__code__)
+    out = {}
+    for a, b in (ranges or COV_RANGES):
+        ex = sorted(l for l in execl if a <= l <= b)
+        hit = [l for l in ex if l in _LINES]
+        out['_dictable.py:%d-%d' % (a, b)] = '%d/%d executable lines hit; not hit: %s' % (len(hit), len(ex), [l for l in ex if l not in _LINES][:12])
+    return out
+
+
 def new_state():
+    start_coverage()
     return []
 
 
@@ -147,6 +200,8 @@ def apply_op(state, sx):
         return ('val', list(state[_h(args[0])]))
     if op == 'tup':
         return ('val', state[_h(args[0])][proto.dec(args[1])])
+    if op == 'apply':
+        return ('val', state[_h(args[0])][_fn(args[1])])
     if op == 'slice':
         t = state[_h(args[1])]
         return put(args[0], t[slice(_slice_arg(args[2]), _slice_arg(args[3]), _slice_arg(args[4]))])
@@ -460,7 +515,17 @@ def g_op(S):
             S.tags.add('update-partial')
         return
     if r < 0.42:        # queries
-        q = rng.choice(['len', 'shape', 'iter', 'row', 'row', 'col', 'tup'])
+        q = rng.choice(['len', 'shape', 'iter', 'row', 'row', 'col', 'tup', 'apply'])
+        idc = [c for c in cols if c.isidentifier()]
+        if q == 'apply':
+            if rng.random() < 0.15 or not idc:
+                f = fn_spec('idcol', 'q') if rng.random() < 0.6 else fn_spec('const', S.cell())
+            elif len(idc) >= 2 and rng.random() < 0.4:
+                f = fn_spec('coalesce', *rng.sample(idc, 2))
+            else:
+                f = fn_spec(rng.choice(['idcol', 'isnone']), rng.choice(idc))
+            S.emit('(tbl apply h%d %s)', h, f)
+            return
         if q in ('len', 'shape', 'iter'):
             S.emit('(tbl %s h%d)', q, h)
         elif q == 'row':
@@ -854,6 +919,8 @@ def laws(rng, tier, ctx):
                             _same_cell(x, y) for x, y in zip(res[c], [v for v, tf in zip(src[c], m) if tf])) for c in src):
                         yield Finding('violation', case, 'd[mask] is not the flagged rows in order with all columns')
                         break
+    if _COV['on']:
+        EXTRA['line_coverage'] = coverage_report()
     yield count
 
 
